@@ -380,9 +380,8 @@ class StorySend(MosFile):
         """
         Merge into the :class:`RunningOrder` object provided.
         """
-        try:
-            story, story_index = ro._find_story(self.story.id)
-        except ValueError:
+        story, story_index = find_child(parent=ro.base_tag, child_tag='story', id=self.story.id)
+        if story is None:
             msg = f"{self.__class__.__name__} error in {self.message_id} - story not found"
             logger.warning(msg)
             warnings.warn(msg, StoryNotFoundWarning)
